@@ -20,7 +20,12 @@ theorem digit_not_alpha (c : Char) (h : c.isDigit = true) : c.isAlpha = false :=
   constructor <;> (simp only [UInt32.le_iff_toNat_le] at *; omega)
 
 theorem space_cases {c : Char} (h : isSpace c = true) : c = ' ' ∨ c = '\n' ∨ c = '\t' ∨ c = '\r' := by
-  simpa [isSpace] using h
+  simp only [isSpace, Bool.or_eq_true, beq_iff_eq] at h
+  rcases h with ((h | h) | h) | h
+  · exact Or.inl h
+  · exact Or.inr (Or.inl h)
+  · exact Or.inr (Or.inr (Or.inl h))
+  · exact Or.inr (Or.inr (Or.inr h))
 
 theorem digit_not_space {c : Char} (h : c.isDigit = true) : isSpace c = false := by
   cases hs : isSpace c with
@@ -52,8 +57,6 @@ def run (st : LS) (cs : List Char) : List Tok := (feed st cs).1 ++ flush (feed s
 
 theorem lexC_eq_run (cs : List Char) : lexC cs = run .start cs := by
   simp only [lexC, run]
-  cases feed LS.start cs
-  rfl
 
 theorem run_nil (st : LS) : run st [] = flush st := by simp [run, feed]
 
@@ -98,7 +101,8 @@ theorem trans_sep {st : LS} {c : Char} (h : sepChar st c = true) :
     simp [trans, flush, h]
   | num acc =>
     simp only [sepChar, Bool.not_eq_true'] at h
-    simp [trans, flush, h]
+    simp only [trans, flush, h]
+    rfl
   | pend p =>
     simp only [sepChar, Bool.and_eq_true, Bool.not_eq_true', Option.isNone_iff_eq_none] at h
     obtain ⟨⟨h1, h2⟩, h3⟩ := h
@@ -115,9 +119,9 @@ theorem sepChar_space {st : LS} (hst : st ≠ .comment) {c : Char} (h : isSpace 
   rcases space_cases h with rfl | rfl | rfl | rfl <;>
   (cases st with
    | start => rfl
-   | ident acc => simp [sepChar]; decide
-   | num acc => simp [sepChar, numCont]; decide
-   | pend p => simp [sepChar, pend2]; decide
+   | ident acc => simp [sepChar] <;> decide
+   | num acc => simp [sepChar, numCont] <;> decide
+   | pend p => simp [sepChar, pend2] <;> decide
    | comment => exact absurd rfl hst)
 
 theorem run_spaces {s : List Char} (hs : s.all isSpace = true) (cs : List Char) :
